@@ -207,7 +207,7 @@ func init() {
 }
 
 func init() {
-	claim("C06", "P1", "P2", "M2", "M1", "W1")
+	claim("C06", "P1", "P2", "V7", "M2", "M1", "W1")
 }
 
 func init() {
@@ -227,7 +227,7 @@ func init() {
 }
 
 func init() {
-	claim("C01", "V1", "V2", "V3", "V4", "V5", "V6", "P2")
+	claim("C01", "V1", "V2", "V3", "V4", "V5", "V6", "V7", "P2")
 }
 
 func init() {
@@ -240,7 +240,7 @@ func init() {
 }
 
 func init() {
-	claim("C19", "B1", "B5", "B2", "B3", "B4")
+	claim("C19", "B1", "B5", "B2", "B3", "B4", "I6T")
 }
 
 func init() {
@@ -272,7 +272,7 @@ func init() {
 }
 
 func init() {
-	claim("C10", "I1", "I7", "I4", "I5", "I8", "I3", "B3", "B4")
+	claim("C10", "I1", "I7", "I4", "I5", "I6", "I8", "I3", "B3", "B4")
 }
 
 func init() {
